@@ -13,7 +13,7 @@ Variables (N dl dc : nat).
 Hypothesis Npos : (0 < N)%nat.
 
 Notation sset := (@sset ROps St Aux).
-Notation event := (@event ROps St Aux).
+Notation event := (@event ROps St).
 Notation sis_state := (@sis_state ROps St Aux).
 
 Definition wf_set (s : sset) : Prop :=
@@ -27,7 +27,7 @@ Definition PreInv (st : sis_state) : Prop := good (pred st) /\ (step st <> 0%nat
 
 (* a valid likelihood vector has one entry per particle *)
 Definition wf_ev (ev : event) : Prop :=
-  match ev_lik ev with Some l => length l = N | None => True end.
+  match ev_lik ev with Some l => length l = N /\ Forall (fun x => 0 <= x) l | None => True end.
 
 Lemma mapi_from_length {A B} (f : nat -> A -> B) i l : length (mapi_from f i l) = length l.
 Proof. revert i; induction l; intro i; simpl; auto. Qed.
@@ -57,7 +57,7 @@ Qed.
 Lemma wf_correct ev (pr : sset) : wf_ev ev -> wf_set pr -> wf_set (correct ev pr).
 Proof.
   intros Hev [Q1 [Q2 [Q3 Q4]]]. unfold correct, wf_ev in *. destruct (ev_skip_corr ev); [repeat split; auto|].
-  destruct (ev_lik ev) as [l|]; [|repeat split; auto].
+  destruct (ev_lik ev) as [l|]; [|repeat split; auto]. destruct Hev as [Hev _].
   repeat split; simpl; auto. rewrite add_logs_length; auto. unfold lik_args. rewrite map_length.
   transitivity N; [exact Q2 | symmetry; exact Hev].
 Qed.
@@ -277,6 +277,105 @@ Proof.
   - intro H. unfold sis_step. fold m. cbn [cor]. rewrite H. split; auto. intro W. apply resampled_lw; auto.
   - intro H. unfold sis_step. fold m. cbn [cor]. rewrite H. reflexivity.
   - split; reflexivity.
+Qed.
+
+
+(* ---- what the driver runs is sis_trace ---- *)
+Lemma trace_full_bridge (evs : list event) : forall st : sis_state,
+  map snd (sis_trace_full N st evs) = sis_trace N st evs.
+Proof. induction evs as [|ev evs IH]; intro st; simpl; [reflexivity|]. f_equal. apply IH. Qed.
+
+Lemma trace_full_components (evs : list event) : forall (st : sis_state) k m b st',
+  nth_error (sis_trace_full N st evs) k = Some (m, b, st') ->
+  exists st0 ev, m = cor (sis_mid st0 ev) /\ b = needs_resampling N m /\ st' = sis_step N st0 ev.
+Proof.
+  induction evs as [|ev evs IH]; intros st k m b st' H; [destruct k; discriminate|].
+  destruct k; simpl in H.
+  - inversion H; subst. exists st, ev. repeat split.
+  - eapply IH; eauto.
+Qed.
+
+(* ---- the other two ways of having no usable measurement ---- *)
+Lemma lse_normalise_id (l : list R) : lse ROps l = 0 -> lse_normalise ROps l = l.
+Proof.
+  intro H. unfold lse_normalise. rewrite H. rewrite <- (map_id l) at 2. apply map_ext. intro a.
+  change (a - 0 = a). lra.
+Qed.
+
+Lemma no_usable_likelihood (st : sis_state) (ev : event) :
+  ev_freeze ev = true -> (ev_skip_corr ev = true \/ ev_lik ev = None) ->
+  normalised (pred (sis_mid st ev)) -> cor (sis_mid st ev) = pred (sis_mid st ev).
+Proof.
+  intros Hf Hs Hn. unfold sis_mid in *. cbn [pred cor] in *. rewrite Hf.
+  set (pr := if Nat.eqb (step st) 0 then pred st else predict ev (cor st) (pred st)) in *.
+  assert (E : correct ev pr = pr).
+  { unfold correct. destruct Hs as [Hs|Hs]; rewrite Hs; [reflexivity|]. destruct (ev_skip_corr ev); reflexivity. }
+  rewrite E. unfold normalise. rewrite (lse_normalise_id (s_lw pr) Hn). destruct pr; reflexivity.
+Qed.
+
+(* ---- after every step no resampling is pending: neff >= N/3 ---- *)
+Lemma neff_uniform n : (0 < n)%nat -> (neff ROps (repeat (- ln (INR n)) n) : R) = INR n.
+Proof.
+  intro H. assert (Hn : 0 < INR n) by (apply lt_0_INR; auto).
+  rewrite (neff_formula exp). rewrite map_repeat, sumR_repeat.
+  replace (exp (- ln (INR n))) with (/ INR n) by (rewrite exp_Ropp, exp_ln; auto).
+  field. lra.
+Qed.
+
+Definition settled (c : sset) : Prop := needs_resampling N c = false.
+
+Lemma needs_resampling_lw (c c' : sset) : s_lw c = s_lw c' -> needs_resampling N c = needs_resampling N c'.
+Proof. intro H. unfold needs_resampling. rewrite H. reflexivity. Qed.
+
+Lemma settled_after_step (st : sis_state) (ev : event) :
+  wf_set (cor (sis_mid st ev)) -> settled (cor (sis_step N st ev)).
+Proof.
+  intro W. unfold settled, sis_step. cbn [cor].
+  destruct (needs_resampling N (cor (sis_mid st ev))) eqn:E; [|exact E].
+  unfold needs_resampling. rewrite (resampled_lw _ _ W), neff_uniform by auto.
+  change (sltb ROps) with Rltb. change (sdiv ROps) with Rdiv. rewrite !(sofnat_R exp), INR3.
+  apply Rltb_false. assert (0 < INR N) by (apply lt_0_INR; auto). lra.
+Qed.
+
+(* end-of-step statement: from the second step on, a failed acquisition leaves cor = pred at the END of the step
+   (no resampling can be triggered by the copied set, because none was pending after the previous step) *)
+Lemma no_measurement_end_of_step (st : sis_state) (ev : event) :
+  step st <> 0%nat -> settled (cor st) -> ev_freeze ev = false ->
+  cor (sis_step N st ev) = pred (sis_step N st ev).
+Proof.
+  intros Hs Hset Hf. unfold sis_step. cbn [cor pred].
+  rewrite (no_measurement st ev Hf).
+  assert (E : needs_resampling N (pred (sis_mid st ev)) = false).
+  { unfold sis_mid. cbn [pred]. apply Nat.eqb_neq in Hs. rewrite Hs.
+    rewrite <- Hset. apply needs_resampling_lw. unfold predict. destruct (ev_skip_pred ev); reflexivity. }
+  rewrite E. reflexivity.
+Qed.
+
+(* ---- positivity at the ln and division sites of one step ---- *)
+Lemma sum_sq_pos (l : list R) : l <> [] -> 0 < sumR (map (fun x => exp x * exp x) l).
+Proof.
+  intro H. apply sumR_pos; [destruct l; simpl; congruence|].
+  intros a Ha. apply in_map_iff in Ha. destruct Ha as [b [<- _]]. pose proof (exp_pos b). nra.
+Qed.
+
+Lemma step_sites_positive (st : sis_state) (ev : event) :
+  PreInv st -> wf_ev ev ->
+  (* ln (lik + tiny) *)
+  (forall l, ev_lik ev = Some l -> Forall (fun x => 0 < x) (lik_args ROps l)) /\
+  (* ln inside log_sum_exp of the re-weighted set *)
+  (0 < lse_arg (s_lw (correct ev (pred (sis_mid st ev))))) /\
+  (* 1 / sum (exp lw)^2 in neff *)
+  (0 < sumR (map (fun x => exp x * exp x) (s_lw (cor (sis_mid st ev))))) /\
+  (* ln N *)
+  0 < INR N.
+Proof.
+  intros HP Hev. destruct (good_mid st ev HP Hev) as [[Wp _] [Wc _]].
+  split; [|split; [|split]].
+  - intros l Hl. unfold wf_ev in Hev. rewrite Hl in Hev. apply lik_args_pos. apply Hev.
+  - assert (W : wf_set (correct ev (pred (sis_mid st ev)))) by (apply wf_correct; auto).
+    destruct W as [_ [W2 _]]. destruct (lse_unfold _ (nonempty_of_length _ W2)) as [mx [_ Hpos]]. exact Hpos.
+  - destruct Wc as [_ [W2 _]]. apply sum_sq_pos. apply (nonempty_of_length _ W2).
+  - apply lt_0_INR; auto.
 Qed.
 
 End SIS.
